@@ -202,7 +202,7 @@ theorem filterMap_map_eq {α β γ : Type} (T : List α) (f : α → Option β) 
   | nil => rfl
   | cons t T ih =>
     obtain ⟨out, h1, h2⟩ := h t (by simp)
-    simp [List.filterMap_cons, h1, h2, ih fun t' ht' => h t' (List.mem_cons_of_mem _ ht')]
+    simp [h1, h2, ih fun t' ht' => h t' (List.mem_cons_of_mem _ ht')]
 
 theorem filterMap_filter_comm {α β : Type} (T : List α) (f : α → Option β) (p : β → Bool) (q : α → Bool)
     (h : ∀ t ∈ T, ∀ out, f t = some out → p out = q t) :
